@@ -642,6 +642,7 @@ func init() {
 			ruleRepeatedNesting(c)
 			ruleOptionRejected(c)
 			ruleBuildCycle(c)
+			ruleOverlayKey(c)
 			ruleReflectPre(c)
 		},
 	})
